@@ -224,7 +224,9 @@ def _parenthesised_star(node):
     i = min(node.col_offset, len(line)) - 1
     while i >= 0 and line[i] in " \t\f":
         i -= 1
-    if i < 0 or line[i] != "(":
+    if i < 0:
+        return True  # the * starts its line: which parenthesis it follows is on another line - not judged
+    if line[i] != "(":
         return False
     i -= 1
     while i >= 0 and line[i] in " \t\f":
